@@ -334,6 +334,36 @@ pub fn run_worker(ctx: &Ctx, rep: &mut Report, chunk: usize, nchunks: usize) {
             |j, (t, flag)| case_json(j.entry, j.ty, 0, true, *flag, t),
             |j, (t, flag), l| total_check(j.entry, j.ty, t, *flag, l),
         );
+        // binade sweep for the deep jobs: a number in every binade from 300 below the smallest subnormal to 300
+        // above the largest finite value (an overflowing shift or an out-of-range table index for one binade)
+        if let (true, Ty::Float(fi)) = (deep, j.ty) {
+            let k = kind_of(fi);
+            let rx = m.radices();
+            let mut l = Local::new();
+            l.sample_cap = 0;
+            let lo = 1 - k.bias() - (k.p as i64 - 1) - 300;
+            let hi = (k.max_exp_field() as i64 - 1) - k.bias() + 300;
+            let mut viol: Vec<(String, Value)> = Vec::new();
+            'sweep: for e2 in lo..=hi {
+                let h = splitmix(mix(ctx.seed, &["c10-binade", &ji.to_string(), &e2.to_string()]));
+                for (i, mant) in [1u64 << 52, (1u64 << 52) | (h >> 12), (1u64 << 52) | (h >> 13), (1u64 << 52) | (h >> 14) | 1].into_iter().enumerate() {
+                    let text = gen::binade_text(rx, mant, e2 - 52, o.decimal_point, o.exponent, h & 2 != 0, crate::c01::SIG_BITS[(i + (h >> 20) as usize) % crate::c01::SIG_BITS.len()]);
+                    let flag = (h >> 3) & 1 == 1 && i == 1;
+                    if let Err(f) = total_check(j.entry, j.ty, &text, flag, &mut l) {
+                        if filter_known(ctx, &mut l, &f) {
+                            viol.push((f.message, case_json(j.entry, j.ty, 0, true, flag, &text)));
+                            break 'sweep;
+                        }
+                    }
+                }
+            }
+            for (msg, case) in viol {
+                if rep.violations.len() < 30 {
+                    rep.violation("enumerated:binade-sweep", msg, case);
+                }
+            }
+            rep.add("enumerated:binade-sweep", l);
+        }
     }
 }
 
